@@ -83,6 +83,7 @@ int streamWrapper(void *ptr, const MPT_STRUCT(message) *msg)
 		/* test reply indicator */
 		if (id[0] & 0x80) {
 			MPT_STRUCT(command) *ans;
+			int (*reply)(void *, void *);
 			
 			id[0] &= 0x7f;
 			if ((ret = mpt_message_buf2id(id, idlen, &mid)) < 0
@@ -97,7 +98,10 @@ int streamWrapper(void *ptr, const MPT_STRUCT(message) *msg)
 				        MPT_tr("dispatch failed"), MPT_tr("unknown reply id"), mid);
 				return MPT_ERROR(BadValue);
 			}
-			return ans->cmd(ans->arg, &tmp);
+			/* request is answered, deregister handler */
+			reply = ans->cmd;
+			ans->cmd = 0;
+			return reply(ans->arg, &tmp);
 		}
 		ctx = 0;
 		for (i = 0; i < idlen; ++i) {
@@ -233,6 +237,7 @@ extern int mpt_connection_dispatch(MPT_STRUCT(connection) *con, MPT_TYPE(event_h
 	if (data[0] & 0x80) {
 		MPT_STRUCT(message) msg = MPT_MESSAGE_INIT;
 		MPT_STRUCT(command) *ans;
+		int (*reply)(void *, void *);
 		uint64_t id;
 		int len;
 		data[0] &= 0x7f;
@@ -249,7 +254,10 @@ extern int mpt_connection_dispatch(MPT_STRUCT(connection) *con, MPT_TYPE(event_h
 		}
 		msg.base = data + hlen;
 		msg.used = buf->_used - hlen;
-		if ((len = ans->cmd(ans->arg, &msg)) < 0) {
+		/* request is answered, deregister handler */
+		reply = ans->cmd;
+		ans->cmd = 0;
+		if ((len = reply(ans->arg, &msg)) < 0) {
 			mpt_log(0, _func, MPT_LOG(Error), "%s (%i)",
 			        MPT_tr("reply processing failed"), len);
 			return MPT_ERROR(MissingBuffer);
